@@ -10,6 +10,47 @@
 struct Camera* simcam_make_camera(enum BasicDeviceKind kind);
 enum DeviceStatusCode simcam_close_camera(struct Camera* camera_);
 
+// ---- electric-fence allocator for the camera's image buffers (link-time --wrap=realloc,free): every buffer ends at a
+// PROT_NONE page and a released buffer becomes PROT_NONE for good, so a use after re-configuration or past the end faults
+#include <sys/mman.h>
+void* __real_realloc(void*, size_t);
+void __real_free(void*);
+static struct { char* base; size_t map; char* user; size_t n; int live; } EF[256];
+static int NEF;
+static int ef_find(void* p) { for (int i = 0; i < NEF; ++i) if (EF[i].user == (char*)p) return i; return -1; }
+static const char* ef_classify(void* addr, char* detail, size_t n)
+{
+    for (int i = 0; i < NEF; ++i)
+        if ((char*)addr >= EF[i].base && (char*)addr < EF[i].base + EF[i].map) {
+            snprintf(detail, n, "camera image buffer #%d (%zu bytes) %s:", i, EF[i].n, EF[i].live ? "accessed beyond its end" : "accessed after it was released by a re-configuration");
+            return EF[i].live ? "C17:camera-buffer-overflow" : "C17:camera-buffer-use-after-free";
+        }
+    return 0;
+}
+void* __wrap_realloc(void* old, size_t n)
+{
+    if (!vs_param("efence", 1) || NEF >= 256) return __real_realloc(old, n);
+    int oi = old ? ef_find(old) : -1;
+    if (old && oi < 0) return __real_realloc(old, n);
+    size_t pages = (n + 4095) / 4096 + 1;
+    char* base = mmap(0, pages * 4096, PROT_READ | PROT_WRITE, MAP_PRIVATE | MAP_ANONYMOUS, -1, 0);
+    if (base == MAP_FAILED) return 0;
+    mprotect(base + (pages - 1) * 4096, 4096, PROT_NONE);
+    char* user = base + (pages - 1) * 4096 - ((n + 31) / 32) * 32; // keeps the 32-byte granularity the camera rounds sizes to
+    EF[NEF].base = base; EF[NEF].map = pages * 4096; EF[NEF].user = user; EF[NEF].n = n; EF[NEF].live = 1; ++NEF;
+    if (oi >= 0) { memcpy(user, old, EF[oi].n < n ? EF[oi].n : n); EF[oi].live = 0; mprotect(EF[oi].base, EF[oi].map, PROT_NONE); }
+    // the first bytes of every image buffer are watched: the first store of a render pass is a scheduling point, so the
+    // explorer can re-configure between "streamer picked up the buffer pointer" and "streamer writes through it"
+    if (vs_param("watch", 1)) vs_watch(user, 8, "cam.image-buffer[0..8)");
+    return user;
+}
+void __wrap_free(void* p)
+{
+    int i = p ? ef_find(p) : -1;
+    if (i < 0) { __real_free(p); return; }
+    EF[i].live = 0; mprotect(EF[i].base, EF[i].map, PROT_NONE);
+}
+
 static struct Camera* CAM;
 static struct SimulatedCamera* SC_;
 static struct CameraProperties PROPS_;
@@ -40,6 +81,7 @@ static void apply_props(uint32_t w, uint32_t h, int type, int binning)
 static void cam_setup_common(void)
 {
     logger_set_reporter(reporter_);
+    vs_crash_classifier = ef_classify;
     P_TRIG = (int)vs_param("trigger", 0);
     P_FRAMES = (int)vs_param("frames", 2);
     P_EXPOSURE_MS = (double)vs_param("exposure", 4);
